@@ -538,6 +538,15 @@ func checkFillLoop(c *Ctx, p *GoProg, fd *ast.FuncDecl, name string, loop *ast.F
 				d = -1
 			}
 			bodyEnv.Assign(s.X, bodyEnv.Eval(s.X).Add(affK(d), 1))
+		case *ast.IfStmt:
+			// a guard that only fails the whole operation (if … { return … }) does not stop the fill early
+			okGuard := s.Else == nil && s.Init == nil && len(s.Body.List) == 1
+			if okGuard {
+				_, okGuard = s.Body.List[0].(*ast.ReturnStmt)
+			}
+			if !okGuard {
+				straight = false
+			}
 		default:
 			straight = false
 		}
